@@ -62,7 +62,12 @@ MutinyStream<'a, ItemType, ChannelConsumerType, DerivedItemType> {
                     self.events_source.register_stream_waker(self.stream_id, cx.waker());
                     Poll::Pending
                 } else {
-                    Poll::Ready(None)
+                    // told to end: an event may have been sent between our (empty) `consume()` above and the end signal
+                    // -- the stream only ends once nothing is left for it
+                    match self.events_source.consume(self.stream_id) {
+                        Some(event) => Poll::Ready(Some(event)),
+                        None        => Poll::Ready(None),
+                    }
                 }
             },
         }
